@@ -16,6 +16,7 @@ import (
 	"os"
 	"path/filepath"
 	"sort"
+	"strconv"
 	"strings"
 	"time"
 
@@ -30,7 +31,35 @@ func main() {
 	seed := flag.Int64("seed", 1, "seed for -random")
 	out := flag.String("out", "", "directory for C08-known-findings.json / C09-known-findings.json (empty: do not write)")
 	verbose := flag.Bool("v", false, "print every key")
+	bodyFlag := flag.String("body", "", "only show what both oracles say about this template body (Go-quoted or raw) and its reduction")
 	flag.Parse()
+	if *bodyFlag != "" {
+		b := *bodyFlag
+		if u, err := strconv.Unquote(b); err == nil {
+			b = u
+		}
+		src := tsrc.BareFileOf(b)
+		if strings.HasPrefix(b, "package ") {
+			src = b
+		}
+		for _, o := range []tsrc.Oracle{c08.Check, c09.Check} {
+			out := o(src)
+			fmt.Printf("accepted=%v changed=%v class=%q\n  %s\n", out.Accepted, out.Changed, out.Class, out.Detail)
+			if out.Class != "" {
+				red := tsrc.Reduce(src, out.Class, func(s string) string {
+					x := o(s)
+					if !x.Accepted {
+						return ""
+					}
+					return x.Class
+				})
+				fmt.Printf("  reduced (%d tests, lift=%v): %s\n", red.Tests, red.Lift, red.Key)
+			}
+		}
+		F, _ := tsrc.Fmt(src)
+		fmt.Printf("--- fmt:\n%s", F)
+		return
+	}
 
 	var progs []tsrc.Prog
 	for _, cl := range tsrc.AllCells() {
